@@ -469,6 +469,14 @@ pub fn cases(thorough: bool) -> Vec<Case> {
         texts.push(("when", format!("(when (tick 0 #t) {})", seq(&|i| tk(i, &i.to_string())))));
         texts.push(("unless", format!("(unless (tick 0 #f) {})", seq(&|i| tk(i, &i.to_string())))));
         texts.push(("let", format!("(let ((a 1)) {} a)", seq(&|i| format!("(set! a {})", tk(i, "(- a -1)"))))));
+        // an outer variable read and assigned from the N-th sub-form (N scopes below its binding)
+        let bump = "(begin (set! a (- a -1)) ";
+        texts.push(("or", format!("(let ((a 0)) (or {}) a)", seq(&|_| format!("{}#f)", bump)))));
+        texts.push(("and", format!("(let ((a 0)) (and {}) a)", seq(&|_| format!("{}#t)", bump)))));
+        texts.push(("cond", format!("(let ((a 0)) (cond {} (else a)))", seq(&|_| format!("({}#f) 'no)", bump)))));
+        texts.push(("let*", format!("(let ((a 0)) (let* ({}) (list a v1 v{})))", seq(&|i| format!("(v{} {}a))", i, bump)), n)));
+        texts.push(("case", format!("(let ((a 0)) (case {} {} (else (set! a (- a -1)) a)))", n + 1, seq(&|i| format!("(({}) (set! a 'no))", i)))));
+        texts.push(("when", format!("(let ((a 0)) (when #t {}) a)", seq(&|_| "(set! a (- a -1))".to_string()))));
         for (fam, text) in texts {
             let form = parse1(&text);
             for (cname, forms) in contexts(&form) {
@@ -501,6 +509,8 @@ pub fn cases(thorough: bool) -> Vec<Case> {
                 ("case", nest(&|i| format!("(case {} ((0) 'no) (else ", tk(i, "1")), "'in", "))")),
                 ("and", nest(&|i| format!("(and {} ", tk(i, "1")), "'in", ")")),
                 ("or", nest(&|i| format!("(or {} ", tk(i, "#f")), "'in", ")")),
+                ("when", format!("(let ((a 0)) {} a)", nest(&|_| "(when #t (set! a (- a -1)) ".to_string(), "a", ")"))),
+                ("let", format!("(let ((a 0)) {})", nest(&|i| format!("(let ((b{} a)) (set! a (- a -1)) ", i), &format!("(list a b1 b{})", n), ")"))),
             ];
             for (fam, text) in deep {
                 let form = parse1(&text);
